@@ -53,8 +53,12 @@ def _anchor_locked():
     return arts
 
 
+def run_id():
+    return os.environ.get("VF_RUN", "adhoc")
+
+
 def workdir(*parts):
-    p = cache_dir("work", repo_key(), *parts)
+    p = cache_dir("work", repo_key(), run_id(), *parts)
     return p
 
 
